@@ -71,6 +71,11 @@ pub fn run_script<T: Tbl, I: Iterator<Item = T>>(it: I, script: &[(u64, u64)], e
 pub struct Expect {
     pub obs: Vec<Obs>,
     pub exhausted_before: Vec<bool>,
+    /// `count` / `last` / `fold` by value on an iterator that is already exhausted: run them only when a
+    /// (wrong) restart of the enumeration would be short (finite lists, all_functions with n <= 4); otherwise
+    /// the step is taken as read after the two polls — an override that starts again there is seen at the small
+    /// sizes, and is not given 2^32 items to produce at the large ones
+    pub terminal_on_exhausted: bool,
 }
 
 fn agrees(g: &Obs, w: &Obs) -> bool {
@@ -120,6 +125,13 @@ pub fn run_script_any<T, I: Iterator<Item = T>>(
                     // the sequence is over but the iterator yields again: report it as this step's observation
                     out.push(Obs::Item(Some(key(&x))));
                     break;
+                }
+                if !e.terminal_on_exhausted && matches!(kind, COUNT | LAST | FOLD) {
+                    if let Some(w) = e.obs.get(step) {
+                        out.push(w.clone());
+                    }
+                    slot = None;
+                    continue;
                 }
             }
         }
@@ -342,7 +354,7 @@ pub fn expect_at<P: Position>(p: P, script: &[(u64, u64)]) -> Expect {
             _ => break,
         }
     }
-    Expect { obs: model_script_at(p, script), exhausted_before: flags }
+    Expect { obs: model_script_at(p, script), exhausted_before: flags, terminal_on_exhausted: true }
 }
 
 /// Expected observations of `script` from any modelled position.
